@@ -210,7 +210,7 @@ def parse_coq_value(out):
     return json.loads(t)
 
 
-SHARD_WEIGHT = 500_000
+SHARD_WEIGHT = 130_000
 _REP = re.compile(r"(?:rep|ramp)\s+\d+\s+(\d+)")
 
 
